@@ -54,7 +54,10 @@ def render(e, rng, parent=0, right=False, words=False, extra=0.1):
     if r.startswith("-") and not words:
         r = "(" + r + ")" if rng.random() < 0.5 else r
     sym = rng.choice(SYM[op]) if words else op
-    s = "%s %s %s" % (l, sym, r)
+    fmt = "%s %s %s"
+    if not sym.isalpha() and not r.startswith("-") and rng.random() < 0.35:
+        fmt = rng.choice(["%s%s%s", "%s%s%s", "%s %s%s", "%s%s %s"])      # symbols need no blanks around them: `(size*2)+1`
+    s = fmt % (l, sym, r)
     need = PREC[op] < parent or (PREC[op] == parent and right)
     if need or rng.random() < extra:
         b = rng.choice(["()", "{}"])
@@ -340,7 +343,7 @@ def run_job(job):
 
 def main(chk):
     quick = chk.tier == "quick"
-    n = 128 if quick else 1500
+    n = 640 if quick else 3000
     jobs = [{"id": "j%d" % i, "seed": job_seed(chk.seed, "C15", i), "queries": 12 if quick else 24} for i in range(n)]
     if not quick:
         jobs += chk.shard(jobs[:200], "arith", 200)
